@@ -8,6 +8,8 @@ CTX = "xsdata.formats.dataclass.context:XmlContext"
 def register(db):
     collab.declare(db)
     register_choices(db)
+    register_parser_ns_map(db)
+    register_xsi_cache(db)
     P = ["C14"]
     # ------------------------------------------------------------------ memoised wildcard matching
     M = "uf('match_ns', 'bool', self.namespaces, {q})"
@@ -113,4 +115,83 @@ def register_choices(db):
         loops=[Loop(invariants=[], header="self.elements.values()")],
         properties=["C14", "C04"],
         note="IndexError/KeyError/TypeError: artefacts of the abstract value (value[0] of a token list)",
+    ))
+
+
+def register_parser_ns_map(db):
+    """The prefix map a parser records while parsing (``parser.ns_map``, documented as "the parsed namespace
+    prefix-URI map") must be a function of the document: when the caller passes no map, recording has to start
+    from an empty one.  register_namespace keeps the first binding of a prefix, so anything left from an earlier
+    document wins over the current document's declarations."""
+    NP = "xsdata.formats.dataclass.parsers.bases:NodeParser"
+    assume_method(db, "HandlerClass", "__call__", returns="u:XmlHandlerObj")
+    assume_method(db, "XmlHandlerObj", "parse", returns="u:Any|None", raises=["SyntaxError", "ParserError", "ConverterError", "XmlContextError"])
+
+    def node_parser(mk, base):
+        return mk.obj(NP, {"config": "opaque:ParserConfig", "context": "opaque:XmlContext", "handler": "opaque:HandlerClass",
+                           "ns_map": "dict[str|None,str]"})
+
+    db.add(Contract(
+        f"{NP}.parse", variant="records-into-its-own-map",
+        params={"self": node_parser, "source": "opaque:Any", "clazz": "u:type|None", "ns_map": None},
+        # the handler's own writes into the map are not modelled (assumed method), so "empty at exit" in the model
+        # is "empty when handed to the handler"
+        ensures=[("recording-starts-from-an-empty-map",
+                  "call_arg('XmlHandlerObj.parse', 1) is self.ns_map and len(self.ns_map) == 0")],
+        modifies=["self.ns_map"],
+        raises={"ParserError": True, "ConverterError": True, "XmlContextError": True},
+        properties=["C14"], replay="replay_parser_ns_map",
+        note="history independence of the recorded prefix map",
+    ))
+
+
+def register_xsi_cache(db):
+    """The subclass index (xsi:type -> classes) must not be staler than the set of loaded model classes: a context
+    that already answered a lookup has to give the answers a fresh context gives.  The index is rebuilt only
+    when the number of imported modules changed; the clause below asks that skipping the rebuild is justified,
+    i.e. that the classes loaded now are the classes the index was built from."""
+    import z3
+    from pyvc.values import Opaque, z3sort
+
+    db.const_overrides[("sys", "modules")] = Opaque("SysModules", z3.Const("sys_modules", z3sort(("u", "SysModules"))))
+    db.add(Contract(f"{CTX}.get_subclasses", trusted=True, params={}, returns="seq[u:type]", raises={},
+                    call_ensures=["result == uf('loaded_classes', 'seq[u:type]', uf('world_now', 'u:World'))"],
+                    note="assumed: the subclasses of `object` are the classes loaded in the interpreter now"))
+    db.add(Contract(f"{CTX}.is_binding_model", trusted=True, params={}, returns="bool", raises={},
+                    call_ensures=["result == uf('is_binding_model', 'bool', clazz)"]))
+    assume_method(db, "Builder", "build_class_meta", returns="u:XmlMeta", pure=True, raises=["XmlContextError", "NameError", "TypeError"])
+    assume_method(db, "XsiCache", "clear", mutates=True)
+    db.opaque_ops[("XsiCache", "getitem")] = lambda ex, st, v, idx: iter([(st, Opaque("PyList"))])  # a defaultdict(list)
+
+    SYS = db.const_overrides[("sys", "modules")]
+
+    def modules_now(ex, st, env):
+        """len(sys.modules) == module_count(world_now)"""
+        from pyvc.contracts import pure_result
+
+        f = ex.uf("len_SysModules", z3sort(("u", "SysModules")), z3.IntSort())
+        w = pure_result(ex, st, "world_now", "u:World", [])
+        st.assume(f(SYS.t) == pure_result(ex, st, "module_count", "int", [w]).t)
+
+    def context(mk, base):
+        return mk.obj(CTX, {"cache": "opaque:PyDict", "xsi_cache": "opaque:XsiCache", "sys_modules": "int",
+                            "class_type": "opaque:ClassType", "models_package": "str|None",
+                            "element_name_generator": "opaque:Any", "attribute_name_generator": "opaque:Any"})
+
+    db.add(Contract(
+        f"{CTX}.build_xsi_cache",
+        params={"self": context}, ghost={"built_from": "u:World"},
+        requires=[# representation invariant of the index: it was built from some state of the interpreter and
+                  # remembers that state's module count (0 = never built; a running interpreter has modules)
+                  "self.sys_modules == 0 or self.sys_modules == uf('module_count', 'int', built_from)",
+                  "uf('module_count', 'int', uf('world_now', 'u:World')) > 0"],
+        ensures=[("index-reflects-the-classes-loaded-now",
+                  "called('XmlContext.get_subclasses') == 1 or "
+                  "uf('loaded_classes', 'seq[u:type]', built_from) == uf('loaded_classes', 'seq[u:type]', uf('world_now', 'u:World'))")],
+        raises={"XmlContextError": True, "NameError": True, "TypeError": True},
+        loops=[Loop(invariants=[], header="self.get_subclasses(object)")],
+        modifies=["self.sys_modules"],
+        properties=["C14"], replay="replay_xsi_cache", ghost_pre=modules_now,
+        note="history independence of XmlContext.find_type / find_types / find_type_by_fields; "
+             "assumed: len(sys.modules) is the module count of the interpreter state now",
     ))
